@@ -122,15 +122,64 @@ def report(run, pid, cases, meta, rejects, check):
                     "index_docs": len(cases[0]["idx"]["docs"]), "history": meta[0]["plan"]})
 
 
+def big_cases(run, rng, nworlds):
+    """One large, sparse segment (more than one 2048-document window of the array-based union matcher):
+    a few dozen documents carry terms, the rest are empty."""
+    from whoosh import scoring
+    cases, meta = [], []
+    for wi in range(nworlds):
+        n = rng.randrange(2100, 4700)
+        carriers = set(rng.sample(range(n), rng.randrange(12, 50)))
+        if wi % 2 == 0:
+            # postings placed around the window boundaries: a first window, an empty stretch after its end,
+            # the next posting, and postings close to the end of the window that starts there
+            c0, g = rng.randrange(0, 100), rng.randrange(100, 600)
+            p = c0 + 2048 + g
+            n = p + 2048 + rng.randrange(1, 200)
+            carriers = set([c0, p, rng.randrange(p + 2048 - g + 1, p + 2048), p + 2047]
+                           + rng.sample(range(c0 + 1, c0 + 2048), 8) + rng.sample(range(p + 1, p + 2048 - g), 6))
+        adocs = {}
+        for i in range(n):
+            d = {"t": {}, "n": {}, "b4": 4}
+            if i in carriers:
+                d["t"]["body"] = [[rng.randrange(1, 4)] for _ in range(rng.randrange(1, 3))]
+            adocs["k%d" % i] = d
+        plan = [("commit", ["k%d" % i for i in range(n)], {"merge": False})]
+        w = world.World(adocs, plan, storage="ram")
+        try:
+            with w.ix.searcher(weighting=scoring.Frequency()) as s:
+                idx = w.abstract_index(s.reader())
+                qs = []
+                T = lambda c: {"op": "term", "f": "body", "t": [c], "b4": 4}
+                for aq in ({"op": "or", "kids": [T(1), T(2), T(3)], "b4": 4},
+                           {"op": "or", "kids": [T(3), T(1), T(2), T(1)], "b4": 4},
+                           {"op": "or", "kids": [T(1), T(2), T(3)], "b4": 4, "mtype": 1},
+                           {"op": "prefix", "f": "body", "t": [rng.randrange(1, 4)], "b4": 4},
+                           {"op": "wildcard", "f": "body", "t": [-1], "b4": 4},
+                           {"op": "andnot", "a": {"op": "or", "kids": [T(1), T(2), T(3)], "b4": 4}, "b": T(2)}):
+                    q = world.to_query(aq)
+                    obs = qobs.obs_paths(s, q, ("docs_for_query", "query.docs", "unlimited", "unscored"), cmp="members")
+                    qs.append({"q": aq, "obs": obs})
+                    run.count(len(obs))
+                cases.append({"idx": idx, "qs": qs})
+                meta.append({"plan": [["commit", "%d documents" % n]], "nseg": 1, "deleted": 0})
+        finally:
+            w.close()
+    return cases, meta
+
+
 def check(run):
     quick = run.tier == "quick"
     rng = random.Random(run.seed + 101)
     run.rule = ("random commit/merge/delete histories x random query trees; every access path observed and "
                 "judged by TLC against QuerySem!Denote; non-trivial = accepted (index, query) whose result "
                 "set is neither empty nor everything")
-    cases, meta = build_cases(run, rng, 12 if quick else 120, 25 if quick else 40)
+    cases, meta = build_cases(run, rng, 30 if quick else 120, 25 if quick else 40)
     rejects = qobs.judge(run, cases)
     report(run, "C01", cases, meta, rejects, "c01")
+    cases, meta = big_cases(run, rng, 2 if quick else 12)
+    rejects = qobs.judge(run, cases, name="QueryCheck-large", chunk=2)
+    report(run, "C01", cases, meta, rejects, "c01-large")
 
 
 def replay(run, rp):
